@@ -19,7 +19,7 @@ use vcore::{Run, Tier, Violation, util};
 use vstore::fix::{Wrap, build, payload};
 use vstore::hist::apply_tracked;
 use vstore::ops::{Book, Mode, Op, alphabet, applicable};
-use vstore::tamper::{chunk_nonce, get_field, open_chunk};
+use vstore::tamper::{chunk_nonce, get_field, harness_cipher, open_chunk_with};
 
 const WINDOW: usize = 8;
 
@@ -79,6 +79,7 @@ fn run_history(wrap: Wrap, hist: &[Op], clock: u64, want_sample: bool) -> HistOu
             apply_tracked(store.as_ref(), &mut book, op).await;
         }
     });
+    let cipher = harness_cipher();
     let plains = plaintexts(hist);
     // every 8-byte window of every plaintext, built once per history
     let window_sets: Vec<std::collections::HashSet<&[u8]>> = plains.iter().map(|p| p.windows(WINDOW).collect()).collect();
@@ -185,7 +186,7 @@ fn run_history(wrap: Wrap, hist: &[Op], clock: u64, want_sample: bool) -> HistOu
                 // the re-derived nonce must be the one the chunk was really
                 // encrypted under: open it with the harness' own cipher
                 let tag_bytes: &[u8] = if let cbor2::Value::Bytes(t) = tag { t } else { &[] };
-                match open_chunk(&ct[a..b], &n, cs, i as u64, tag_bytes) {
+                match open_chunk_with(&cipher, &ct[a..b], &n, cs, i as u64, tag_bytes) {
                     None => out.violations.push(viol(
                         "chunk-not-under-derived-nonce",
                         format!("{path}: chunk {i} of {gen_path} does not open under nonce n+{i} and the documented chunk AAD"),
@@ -208,6 +209,9 @@ fn run_history(wrap: Wrap, hist: &[Op], clock: u64, want_sample: bool) -> HistOu
             }
         }
     }
+    // one violation per signature per history is enough
+    let mut sigs = std::collections::HashSet::new();
+    out.violations.retain(|v| sigs.insert(v.signature.clone()));
     if want_sample {
         out.sample = Some(json!({
             "wrapper": wrap.label(),
@@ -342,6 +346,44 @@ fn main() {
             }
         }
     }
+    // chunk-counter width: single objects with more than 2^8 and more than 2^16
+    // chunks (chunk size 1), by put and by a multipart upload split inside the
+    // object; every chunk nonce joins the run-wide set and every chunk is
+    // opened under base + index computed by the harness in full 64-bit
+    // arithmetic
+    let mut big: Vec<Vec<Op>> = Vec::new();
+    for n in [255u32, 256, 257, 65_535, 65_536, 65_537, 70_000] {
+        big.push(vec![Op::Put { key: 0, size: n, var: 5, mode: Mode::Overwrite }]);
+        big.push(vec![Op::Multi { key: 2, parts: vec![n / 2 + 1, n - (n / 2 + 1)], var: 6, abort: false }]);
+    }
+    if run.in_budget() {
+        let numbered: Vec<(usize, Vec<Op>)> = big.into_iter().enumerate().collect();
+        let outs: Vec<HistOut> = util::par_map(numbered, threads, |(i, h)| {
+            run_history(Wrap::Enc(1), &h, 1_600_000_000_000 + i as u64 * 64_000, i == 12)
+        });
+        for o in outs {
+            run.add("histories", 1);
+            run.add("many_chunk_objects", 1);
+            run.add("evaluations", o.windows_checked + o.chunks);
+            run.add("plaintext_windows_searched", o.windows_checked);
+            run.add("backend_objects_scanned", o.objects_scanned);
+            run.add("backend_bytes_scanned", o.bytes_scanned);
+            run.add("metadata_documents_decoded", o.meta_docs);
+            run.add("chunk_nonces_derived", o.chunks);
+            run.add("chunks_opened_with_harness_cipher_under_derived_nonce", o.chunks_opened);
+            if let Some(s) = o.sample {
+                run.sample(s);
+            }
+            for v in o.violations {
+                run.violation(v);
+            }
+            all_nonces.extend_from_slice(&o.nonces);
+            seal_nonces.extend_from_slice(&o.seal_nonces);
+        }
+    } else {
+        run.cap_hit("time budget: many-chunk objects not run");
+    }
+
     // one set for the whole run: a nonce may recur only for the very same
     // chunk (a copy carries ciphertext, nonce and tags over verbatim)
     all_nonces.sort_unstable();
@@ -380,7 +422,7 @@ fn main() {
     run.rule(
         "histories = CORE* . FULL+ over keys {a, a/b, c} (C07's alphabet plus 8/24/40-byte puts and a 25-byte three-part upload), EncryptedStore over a journalling backend; \
          every object version the backend ever received is scanned for every 8-byte window of every plaintext of the history; every metadata document written is decoded and the nonce of each chunk re-derived as n[0..4] || LE64(LE64(n[4..12]) + index), and the chunk is opened with the harness' own AES-256-GCM instance under that nonce and the documented chunk AAD (so the derived nonce is the one really used) and must yield bytes the history wrote at that offset; \
-         the seal nonce `an` of every metadata document version joins the same set (identified by path + document without its tag); one nonce set for the whole run (one encryption key), a repeat is a violation unless it is the very same message (the same ciphertext chunk and tag, as in copies); distinct = distinct chunk nonces (capped at 200000 in the evidence counter)",
+         the seal nonce `an` of every metadata document version joins the same set (identified by path + document without its tag); one nonce set for the whole run (one encryption key), a repeat is a violation unless it is the very same message (the same ciphertext chunk and tag, as in copies); plus 14 single objects of 255 / 256 / 257 / 65,535 / 65,536 / 65,537 / 70,000 chunks at chunk size 1 (put, and multipart split inside the object) for the width of the chunk counter; distinct = distinct chunk nonces (capped at 200000 in the evidence counter)",
     );
     run.assume("the OS random generator behind rand::rng() does not repeat 96-bit values (real collision probability is not checked)");
     run.assume("plaintexts are high-entropy (an accidental 8-byte match with ciphertext has probability 2^-64 per position)");
